@@ -239,6 +239,14 @@ func x2Configs(prop, tier string) []*X2Config {
 		res = append(res, &X2Config{Name: "C16/delay-removed", Cfgs: []PipeCfg{d10, base}, Depth: depth(7, 8), Reload: true, Symmetry: true, AdvSteps: adv, Drain: true, Props: props("C16", "C02")})
 		res = append(res, &X2Config{Name: "C16/delay-changed", Cfgs: []PipeCfg{d10, d20}, Depth: depth(7, 8), Reload: true, Symmetry: true, AdvSteps: adv, Drain: true, Props: props("C16", "C02")})
 	}
+	if prop == "C11" {
+		// "while the runner is alive, every acknowledged change reaches the store within the persist interval without an
+		// explicit save": histories of requests, cancels, completions and clock steps with the persist loop running
+		for _, pc := range []PipeCfg{{Conc: 1, QL: -1, Graph: graphOne}, {Conc: 1, QL: 1, Replace: true, Delay: dly, Graph: graphOne}, {Conc: 2, QL: -1, Graph: graphChain}} {
+			res = append(res, &X2Config{Name: "C11/persist-interval/" + cfgName(pc), Cfgs: []PipeCfg{pc}, Depth: depth(5, 6), Cancel: true, FailOK: true, Store: true, AdvAlways: true, Symmetry: false,
+				AdvSteps: []time.Duration{2 * time.Second, 4 * time.Second}, Props: props("C11persist")})
+		}
+	}
 	if prop == "C12" {
 		res = c12Configs(tier)
 	}
